@@ -216,6 +216,12 @@ pub fn cast_shapes_heightfield_shape<D: ?Sized + QueryDispatcher>(
             Real::MAX
         };
 
+        // The next cell boundaries are never behind the ray: a negative time can only result
+        // from rounding errors when the center of the Aabb starts very close to a cell boundary
+        // (the cell it is quantized into may then lie a rounding error ahead of it).
+        let toi_x = toi_x.max(0.0);
+        let toi_z = toi_z.max(0.0);
+
         if toi_x > options.max_time_of_impact && toi_z > options.max_time_of_impact {
             break;
         }
